@@ -116,7 +116,11 @@ class Spec:
         if self.kind == "batch":
             np.random.seed(seed_of(case, case.get("_ref_step", -1)))
             ref = np.array(data[0], dtype=float)
-            det.set_reference(ref)
+            jk = case.get("_ref_junk")          # C16: junk in the documented-unused y_true / y_pred of set_reference
+            if jk is not None:
+                det.set_reference(ref, jk[0], jk[1])
+            else:
+                det.set_reference(ref)
             if case.get("reuse_buffer"):
                 ref[...] = 12345.678          # the caller overwrites its reference array after handing it over
             return det, data[1:]
@@ -323,7 +327,9 @@ class KdqStreamSpec(Spec):
 
 class KdqBatchSpec(Spec):
     name, kind, in_c02 = "KdqTreeBatch", "batch", True
-    def make(self, p): return KdqTreeBatch(alpha=p["alpha"], bootstrap_samples=p["bootstrap_samples"], count_ubound=p["count_ubound"])
+    def make(self, p):
+        kw = {} if "clb" not in p else {"cutpoint_proportion_lbound": p["clb"]}
+        return KdqTreeBatch(alpha=p["alpha"], bootstrap_samples=p["bootstrap_samples"], count_ubound=p["count_ubound"], **kw)
     def gen(self, ctx):
         return {"params": {"alpha": ctx.rng.choice([0.05, 0.2]), "bootstrap_samples": 15, "count_ubound": ctx.rng.choice([3, 8])},
                 "data": batches(ctx.rng, ctx.rng.randint(6, 12), ctx.rng.choice([1, 2, 3]), 20, 45)}
